@@ -390,6 +390,10 @@ def replay(path):
     oh, _ = run_batch("bash", [(ctx, rp["env"], rp["text"])])
     print(json.dumps({"text": rp["text"], "env": rp["env"], "brush": ob.get(0), "bash": oh.get(0),
                       "stderr": core.txt(rb.err[-400:])}, indent=1))
+    b, h = ob.get(0) or {}, oh.get(0) or {}
+    if not core.crash_kind(rb) and h.get("r") == "ERR" and b.get("r") != "ERR" and "**" in rp["text"] and any(x in rp["text"] for x in ("?", "&&", "||")):
+        print("not judged: bash raises 'exponent less than 0' for a ** operand that short-circuit evaluation skips (see DESIGN 10.4)")
+        return 0
     if ob.get(0) != oh.get(0) or core.crash_kind(rb):
         print("VIOLATION property=C07 replay=%s" % path)
         return 1
